@@ -239,6 +239,7 @@ pub fn build(seed: u64, lossy: bool, with_strays: bool, with_replay: bool, bound
         preload: vec![],
         health_check: true,
         stop_when_quiet: false,
+        yields: 0,
     };
     let many = rng.chance(1, 4);
     let n_puts = 2 + rng.below(if many { 23 } else { 7 }) as usize;
